@@ -34,6 +34,9 @@ RABBIT_UTILS = "repid.connections.rabbitmq.utils"
 def run(ctx: Ctx) -> None:
     route_rules(ctx, "R-C05-ROUTE", ("enqueue", "requeue", "reject"))
     helper_siblings(ctx, "R-C05-ROUTE")
+    from .brokers import redis_source_rules
+
+    redis_source_rules(ctx, "R-C05-ROUTE")  # a rejected not-yet-due message goes back to the delayed set
     rounding(ctx, "R-C05-ROUND")
     compare(ctx, "R-C05-CMP")
     poll(ctx, "R-C05-POLL")
